@@ -18,7 +18,10 @@ from ..framework import main
 
 
 def scenario_ops(seed):
+    from .. import wire as wire_
+    hdr = wire_.frame('CLSE', 0, 0)           # output that happens to be a well-formed ADB header (a packet capture, say): payload is payload
     return [dict(api='shell', decode=False, cmd='ls', chunks=[b'out-1;'.hex(), b'out-2;'.hex()]),
+            dict(api='exec_out', decode=False, cmd='cat capture.bin', chunks=[hdr.hex(), (hdr + wire_.frame('OKAY', 0, 0)).hex()]),
             dict(api='stat', path='/s', st=[33188, 1234, 99]),
             dict(api='list', path='/d', entries=[[b'a'.hex(), 1, 2, 3], [b'bb'.hex(), 4, 5, 6]], cuts='small'),
             dict(api='pull', path='/p', size=9000, data_sizes=[4000, 4000, 1000], dest='bytesio'),
